@@ -66,6 +66,11 @@ fn check_case(ctx: &mut Ctx, c: &Case, sizes: Option<&[Vec<u8>]>) {
             let kind = kind_of(d);
             let got = guard(|| catalogue::mapped_view(d, &map, start).expect("catalogue: value is not mappable").map_err(|e| e.to_string()));
             let callsite = || json!({"file": case(), "call": format!("view of structure {} ({}) at offset {} in the file truncated to {} of {} elements", k, kind, start, t, total)});
+            // Whatever else holds: a view that is handed out must lie inside the map (otherwise indexing it
+            // through the safe API reads memory the map does not cover).
+            if let Ok(Ok(info)) = &got {
+                ctx.require_in_bounds(|| format!("{}.view[lies inside the map]", kind), info.outside_map.is_none(), callsite, || json!({"observed": info.outside_map}));
+            }
             if end <= t {
                 // Intact: exposes exactly the content, and tiles the file.
                 match got {
@@ -143,7 +148,7 @@ fn explore(ctx: &mut Ctx) {
         }
     }
     // Triples over a sub-catalogue.
-    let step = (cat.len() / ctx.tier.pick(10, 20)).max(1);
+    let step = (cat.len() / ctx.tier.pick(10, 30)).max(1);
     let sub: Vec<usize> = (0..cat.len()).step_by(step).collect();
     for &i in &sub {
         for &j in &sub {
